@@ -306,8 +306,10 @@ func (BSCScenario) Generate(rng *rand.Rand, focus, tier string) kernel.Plan {
 			} else {
 				add("advance", 1+rng.Int63n(20))
 			}
-		case x < 97:
+		case x < 96:
 			add("crash", rng.Int63n(3))
+		case x < 98:
+			add("rollback", rng.Int63n(8))
 		default:
 			add("export")
 		}
@@ -491,6 +493,8 @@ func (w *bscWorld) apply(op kernel.Op) {
 		if op.Arg(0) > 3600 {
 			w.rec.Fault("clock.jump")
 		}
+	case "rollback":
+		w.opRollback(op)
 	case "wallclock":
 		w.wallNext = w.rec.Focus == "C14"
 	case "crash":
@@ -846,6 +850,7 @@ func (w *bscWorld) block(n int) {
 				}
 				w.prune(now)
 				w.m.apply(tx.hdr)
+				w.hist = append(w.hist, bscHist{h: tx.hdr, after: w.m.clone()})
 				for _, ps := range w.pendingSnaps {
 					if ps.hash == tx.hdr.Hash() {
 						w.snaps[tx.hdr.Number.Uint64()] = ps.sn
@@ -917,6 +922,9 @@ func (w *bscWorld) afterRecv(tx *bscTx, ok bool, log string, pre, post map[strin
 				key = "height_or_delay"
 			}
 			w.rec.Violate("C08", "unsound_accept", key+":"+tx.mut, "accepted %s (heightOK=%v proofOK=%v)", tx.desc, heightOK, proofOK)
+			// the same acceptance seen from the packet protocol (C02): the counterparty provably stored this packet
+			// hash at a height the installed client vouches for - here it did not
+			w.rec.Violate("C02", "accepted_unproven", key, "accepted %s (heightOK=%v proofOK=%v)", tx.desc, heightOK, proofOK)
 		}
 		return
 	}
@@ -1047,4 +1055,79 @@ func rootKeys(m map[uint64]common.Hash) []uint64 {
 	}
 	sort.Slice(out, func(i, j int) bool { return out[i] < out[j] })
 	return out
+}
+
+// opRollback: governance re-anchors the client at an epoch block it already moved past (the counterparty
+// rolled back). The consensus states above the new head stay in the store (UpgradeClient keeps them) but are
+// not vouched for any more: no proof may be accepted at those heights until the new branch reaches them,
+// and every accepted header of the new branch replaces the root stored at its height.
+func (w *bscWorld) opRollback(op kernel.Op) {
+	if len(w.pending) > 0 || w.host.InBlock || w.host.Halted != "" {
+		return
+	}
+	var idx []int
+	for i, e := range w.hist {
+		if e.h.Number.Uint64()%w.m.epoch == 0 && i < len(w.hist)-1 {
+			idx = append(idx, i)
+		}
+	}
+	if len(idx) == 0 {
+		return
+	}
+	i := idx[kernel.Mod(op.Arg(0), len(idx))]
+	e := w.hist[i]
+	m2 := e.after.clone()
+	signer, ok := parliaSigner(e.h, m2.chainID)
+	if !ok {
+		return
+	}
+	m2.recents = map[uint64]common.Address{e.h.Number.Uint64(): signer}
+	// what is stored now stays stored (the states above the new head are stale leftovers of the abandoned
+	// branch until overwritten or pruned); only the head, validators and signer window go back
+	m2.roots, m2.times = map[uint64]common.Hash{}, map[uint64]uint64{}
+	for h, r := range w.m.roots {
+		m2.roots[h] = r
+	}
+	for h, t := range w.m.times {
+		m2.times[h] = t
+	}
+	m2.roots[e.h.Number.Uint64()], m2.times[e.h.Number.Uint64()] = e.h.Root, e.h.Time
+	var vb [][]byte
+	for _, v := range m2.vals {
+		vb = append(vb, v.Bytes())
+	}
+	cs := bsctypes.NewClientState(*toBSCHeader(e.h), 56, m2.epoch, 3, vb, w.contract.Bytes(), w.tp)
+	cons := &bsctypes.ConsensusState{Timestamp: e.h.Time, Height: clienttypes.NewHeight(0, e.h.Number.Uint64()), Root: e.h.Root.Bytes()}
+	up, err := clienttypes.NewUpgradeClientProposal("u", "rollback", w.name, cs, cons)
+	if err != nil {
+		return
+	}
+	st, err := w.host.GovBatch(&w.now, 5*time.Second, w.gov, []govtypes.Content{up})
+	if err != nil || len(st) != 1 || st[0] != govtypes.StatusPassed {
+		w.rec.Logf("rollback proposal did not pass: %v %v", err, st)
+		return
+	}
+	w.rec.Fault("gov.upgrade_rollback")
+	w.rec.Logf("client rolled back from %d to epoch block %d", w.m.head.Number.Uint64(), e.h.Number.Uint64())
+	w.m = m2
+	w.hist = append([]bscHist(nil), w.hist[:i+1]...)
+	// the stub chain continues from the epoch block with a different state: a competing branch
+	w.state.setStorage(w.other, common.BigToHash(big.NewInt(98)), common.BigToHash(big.NewInt(int64(len(w.hist)+int(op.Arg(0))+1))))
+	// the upgrade prunes the oldest consensus state if it had expired when the proposal executed (some
+	// block inside the governance batch): accept that, and only that
+	ctx := w.host.ReadCtx()
+	var hs []uint64
+	for h := range w.m.roots {
+		hs = append(hs, h)
+	}
+	sort.Slice(hs, func(i, j int) bool { return hs[i] < hs[j] })
+	if len(hs) > 0 && hs[0] != e.h.Number.Uint64() {
+		_, found := w.host.App.XIBCKeeper.ClientKeeper.GetClientConsensusState(ctx, w.name, clienttypes.NewHeight(0, hs[0]))
+		if !found && w.m.times[hs[0]]+w.tp < uint64(w.host.CurHdr.Time.Unix()) {
+			delete(w.m.roots, hs[0])
+			delete(w.m.times, hs[0])
+			w.rec.Probe("prune.by_upgrade")
+		}
+	}
+	w.checkClient("after rollback upgrade")
 }
